@@ -356,22 +356,39 @@ def lastIsComb (x : Complex) : Bool :=
   | some (.comb _) => true
   | _ => false
 
-/-- `(compound, sibling combinator)*` — what may be skipped after a `~` in the specified walk -/
+/-- `(compound, sibling combinator)*` — the skipped components are all siblings (proof-side reading
+    of `sibWindows` on well-formed selectors) -/
 def sibChain : Complex → Bool
   | [] => true
   | .compound _ :: .comb c :: rest => c != .child && sibChain rest
   | _ => false
 
-/-- The check the specified walk adds (it is what later dart-sass versions call
-    `_compatibleWithPreviousCombinator`): components of the subselector may be skipped freely only
-    at the start or after a descendant combinator; after `>`/`+` nothing may be skipped, after `~`
-    only sibling-joined compounds. -/
 def okSkip : Option Rel → Complex → Bool
   | none, _ => true
   | some .desc, _ => true
   | some .child, sk => sk.isEmpty
   | some .next, sk => sk.isEmpty
   | some .later, sk => sibChain sk
+
+/-- `matched.windows(2).all(..)` of `compatible_with_previous_combinator` (complex.rs:307): a
+    combinator in second position must be `+`/`~`, a compound after a combinator is fine, two
+    adjacent compounds (descendant) are not -/
+def sibWindows : Complex → Bool
+  | _ :: .comb c :: rest => c != .child && sibWindows (.comb c :: rest)
+  | .comb _ :: .compound d :: rest => sibWindows (.compound d :: rest)
+  | .compound _ :: .compound _ :: _ => false
+  | _ => true
+
+/-- `compatible_with_previous_combinator` (complex.rs:289, added by the fix for C11-S1; dart-sass's
+    `_compatibleWithPreviousCombinator`).  `matched` = the skipped components followed by the
+    compound finally matched.  After a descendant step the code passes `None`; the model keeps
+    `some .desc`, for which the answer is the same. -/
+def compatPrev : Option Rel → Complex → Bool
+  | none, _ => true
+  | some .desc, _ => true
+  | some .child, m => decide (m.length ≤ 1)
+  | some .next, m => decide (m.length ≤ 1)
+  | some .later, m => decide (m.length ≤ 1) || sibWindows m
 
 /-- complex.rs:221–227: `~` in the superselector accepts `~` or `+` in the subselector, otherwise
     the combinators must be equal -/
@@ -394,7 +411,8 @@ def scan (sup : Compound → Compound → Complex → Bool) (c1 : Compound) :
 
 /-- The index walk of `ComplexSelector::is_super_selector` (complex.rs:149–247) on the suffixes
     `a = self[i1..]`, `b = other[i2..]`.  `prev` is the combinator of `self` before `a`.
-    `asFound = true` is the code as it stands; `asFound = false` adds `okSkip`. -/
+    `asFound = false` is the code as it stands (with `compatPrev`, fix 75edc67);
+    `asFound = true` is the walk found on the pinned tree, without that check (finding C11-S1). -/
 def walk (asFound : Bool) (sup : Compound → Compound → Complex → Bool)
     (prev : Option Rel) (a b : Complex) : Bool :=
   match a with
@@ -404,7 +422,7 @@ def walk (asFound : Bool) (sup : Compound → Compound → Complex → Bool)
     match b with
     | .compound _ :: _ =>
       match b.getLast? with
-      | some (.compound d) => (asFound || okSkip prev b.dropLast) && sup c1 d b.dropLast
+      | some (.compound d) => sup c1 d b.dropLast
       | _ => false
     | _ => false
   | .compound c1 :: .comb cb1 :: a' =>
@@ -413,8 +431,8 @@ def walk (asFound : Bool) (sup : Compound → Compound → Complex → Bool)
     | .compound _ :: _ =>
       match scan sup c1 [] b with
       | none => false
-      | some (sk, _, brest) =>
-        if !(asFound || okSkip prev sk) then false else
+      | some (sk, d, brest) =>
+        if !(asFound || compatPrev prev (sk ++ [.compound d])) then false else
         match brest with
         | .comb cb2 :: brest' =>
           if combClash cb1 cb2 then false
@@ -428,8 +446,8 @@ def walk (asFound : Bool) (sup : Compound → Compound → Complex → Bool)
     | .compound _ :: _ =>
       match scan sup c1 [] b with
       | none => false
-      | some (sk, _, brest) =>
-        if !(asFound || okSkip prev sk) then false else
+      | some (sk, d, brest) =>
+        if !(asFound || compatPrev prev (sk ++ [.compound d])) then false else
         match brest with
         | .comb cb2 :: brest' =>
           if cb2 ≠ .child then false else walk asFound sup (some .desc) (.compound c2 :: a'') brest'
